@@ -15,8 +15,11 @@ COQ = os.path.join(VERIF, "coq")
 REPO = os.environ.get("PFDL_REPO", "/repo")
 PY = sys.executable
 
-FORBIDDEN = re.compile(r"\b(Admitted|admit|Axiom|Axioms|Parameter|Parameters|Conjecture|Hypothesis|"
-                       r"Unset Guard Checking|bypass_check|Admit Obligations|type-in-type)\b")
+FORBIDDEN = re.compile(r"\b(Admitted|admit|Axiom|Axioms|Parameter|Parameters|Conjecture|Conjectures|"
+                       r"Unset Guard Checking|Unset Positivity Checking|Unset Universe Checking|"
+                       r"bypass_check|Admit Obligations|type-in-type|impredicative-set)\b")
+# section-local assumptions are discharged when the section closes; outside a section they are axioms
+SECTION_ONLY = re.compile(r"^\s*(?:Local\s+|Global\s+|#\[[^\]]*\]\s*)?(Hypothesis|Hypotheses|Variable|Variables|Context)\b")
 
 # axioms of the standard library that a theorem may depend on (named in DESIGN.md §7);
 # at present no theorem needs any
@@ -77,16 +80,22 @@ def build(log=None):
 
 
 def audit_sources():
-    """no Admitted / admit / Axiom / Parameter / ... anywhere in the development"""
+    """no Admitted / admit / Axiom / Parameter / ... anywhere in the development; Variable /
+    Hypothesis / Context only inside a Section"""
     bad = []
     for root, _, files in os.walk(COQ):
         for f in files:
             if f.endswith(".v"):
                 path = os.path.join(root, f)
                 text = open(path).read()
-                text = re.sub(r"\(\*.*?\*\)", "", text, flags=re.S)
+                text = re.sub(r"\(\*.*?\*\)", lambda m: "\n" * m.group(0).count("\n"), text, flags=re.S)
+                depth = 0
                 for i, line in enumerate(text.split("\n")):
-                    if FORBIDDEN.search(line):
+                    if re.match(r"^\s*Section\s+\w+", line):
+                        depth += 1
+                    elif re.match(r"^\s*End\s+\w+\s*\.", line) and depth > 0:
+                        depth -= 1
+                    if FORBIDDEN.search(line) or (depth == 0 and SECTION_ONLY.match(line)):
                         bad.append("%s:%d: %s" % (os.path.relpath(path, VERIF), i + 1, line.strip()[:100]))
     return bad
 
